@@ -5,7 +5,8 @@ ORDER = []
 
 
 class Loop:
-    def __init__(self, over=None, invariant=(), modifies=None, kind=None, hints=(), lemmas=()):
+    def __init__(self, over=None, invariant=(), modifies=None, kind=None, hints=(), lemmas=(), pre_lemmas=()):
+        self.pre_lemmas = list(pre_lemmas)  # assertions proved at the start of the body (after the loop variable is bound)
         self.lemmas = list(lemmas)        # intermediate assertions proved at the end of the body, then available to the invariant proofs
         self.hints = list(hints)          # ground spec expressions evaluated after the body (seed instances of opaque functions)
         self.over = over              # source text of the iterable / while test the invariant was written for
@@ -18,7 +19,7 @@ class Contract:
     def __init__(self, target, serves=(), types=None, returns=None, requires=(), ensures=(), raises=None,
                  loops=None, modifies=(), ghosts=None, on_call=None, examples=None, variant='', trusted=False,
                  locals=None, self_fields=None, notes='', assumes=(), lemmas=(), opaque_loops=(), fix=None, params=None,
-                 rebinds=(), allocates=False, new_graph_schema='mol', opaque=(), abstract=()):
+                 rebinds=(), allocates=False, new_graph_schema='mol', opaque=(), abstract=(), heap_invariants=()):
         self.target = target          # 'cgsmiles.resolve:compatible' / 'cgsmiles.resolve:MoleculeResolver.resolve'
         self.variant = variant
         self.serves = list(serves)
@@ -44,6 +45,7 @@ class Contract:
         self.rebinds = list(rebinds)          # 'self.x' fields the method re-binds
         self.allocates = allocates            # creates graphs (heap must be havoc'd even without a modifies clause)
         self.new_graph_schema = new_graph_schema
+        self.heap_invariants = set(heap_invariants)   # data invariants assumed of every graph and re-proved at each write
         self.abstract = set(abstract)         # spec functions used as fully uninterpreted symbols here (no definition needed)
         self.opaque = set(opaque) | self.abstract             # spec functions whose definition is hidden in this function's VCs
 
